@@ -135,6 +135,31 @@ class CountingGemini(G.MMDGEMINI):
         return super().evaluate(y_pred, affinity, return_grad)
 
 
+# optional keyword parameters of the named kernels / metrics (sklearn.metrics.pairwise): every key may be given or not
+KPAR = {"rbf": ["gamma"], "laplacian": ["gamma"], "polynomial": ["gamma", "degree", "coef0"], "poly": ["gamma", "degree", "coef0"],
+        "sigmoid": ["gamma", "coef0"], "linear": [], "cosine": []}
+MPAR = {"euclidean": ["squared"], "cityblock": [], "manhattan": [], "l2": [], "cosine": []}
+PVALS = {"gamma": [0.25, 0.5], "degree": [2, 3], "coef0": [0.5, 1.0], "squared": [True, False]}
+
+
+def partial_params(rng, keys, p_none=0.25):
+    """None, or a dictionary in which each optional key is present or absent independently ({} included)."""
+    if rng.random() < p_none:
+        return None
+    return {k: PVALS[k][int(rng.integers(len(PVALS[k])))] for k in keys if rng.random() < 0.5}
+
+
+def valid_params(par, name, table):
+    """par restricted to what the kernel / metric `name` accepts (the same object when nothing has to go)."""
+    if par is None:
+        return None
+    if not isinstance(name, str) or name not in table:
+        return None
+    if all(k in table[name] for k in par):
+        return par
+    return {k: v for k, v in par.items() if k in table[name]}
+
+
 GENERIC = ["LinearModel", "MLPModel", "SparseLinearModel", "SparseMLPModel", "CategoricalModel", "Douglas"]
 
 
@@ -156,17 +181,19 @@ def pool(name, rng, d):
                      "chi2_ova", "wasserstein_ova"]
             if r < len(names):
                 return names[r]
-            return [None, G.MMDGEMINI(kernel="rbf", kernel_params={"gamma": 0.3}), G.KLGEMINI(ovo=True),
-                    G.WassersteinGEMINI(metric="cityblock"), G.MMDGEMINI(kernel="precomputed")][r - len(names)]
+            kk = ["rbf", "laplacian", "polynomial", "sigmoid", "poly"][int(rng.integers(5))]
+            return [None, G.MMDGEMINI(kernel=kk, kernel_params=partial_params(rng, KPAR[kk], 0.1), ovo=bool(rng.integers(2))), G.KLGEMINI(ovo=True),
+                    G.WassersteinGEMINI(metric="euclidean", metric_params=partial_params(rng, MPAR["euclidean"], 0.1)),
+                    G.MMDGEMINI(kernel="precomputed")][r - len(names)]
         P["gemini"] = gem
-    P["kernel"] = ch("linear", "rbf", "polynomial", "precomputed", kern1) if name != "Kauri" else ch("linear", "rbf", "precomputed")
-    P["kernel_params"] = ch(None, None, {"gamma": 0.5})
-    P["metric"] = ch("euclidean", "cityblock", "precomputed", dist1)
-    P["metric_params"] = ch(None, None, {})
+    P["kernel"] = ch("linear", "rbf", "polynomial", "laplacian", "sigmoid", "poly", "cosine", "precomputed", kern1) if name != "Kauri" else ch("linear", "rbf", "precomputed")
+    P["kernel_params"] = lambda: partial_params(rng, ["gamma", "degree", "coef0"])
+    P["metric"] = ch("euclidean", "euclidean", "cityblock", "precomputed", dist1)
+    P["metric_params"] = lambda: partial_params(rng, ["squared"])
     P["ovo"] = ch(False, True)
     P["reg"] = ch(0.1, 0.5)
-    P["base_kernel"] = ch("linear", "rbf", kern2)
-    P["base_kernel_params"] = ch(None, None, {"gamma": 0.5})
+    P["base_kernel"] = ch("linear", "rbf", "polynomial", "sigmoid", kern2)
+    P["base_kernel_params"] = lambda: partial_params(rng, ["gamma", "degree", "coef0"])
     P["n_hidden_dim"] = ch(3, 5)
     P["alpha"] = ch(0.05, 0.2, 1.0)
     P["groups"] = lambda: [None, [[0, 1]], [[0, 1], [2]], [[2], [0]]][int(rng.integers(4))]
@@ -194,12 +221,12 @@ def pool(name, rng, d):
 
 def fix_config(cfg):
     """Keep drawn values jointly valid (parameter dictionaries only with the kernels that take them)."""
-    if "kernel_params" in cfg and not (cfg.get("kernel") == "rbf"):
-        cfg["kernel_params"] = None
-    if "base_kernel_params" in cfg and not (cfg.get("base_kernel") == "rbf"):
-        cfg["base_kernel_params"] = None
-    if "metric_params" in cfg and callable(cfg.get("metric")):
-        cfg["metric_params"] = None
+    if "kernel_params" in cfg:
+        cfg["kernel_params"] = valid_params(cfg["kernel_params"], cfg.get("kernel"), KPAR)
+    if "base_kernel_params" in cfg:
+        cfg["base_kernel_params"] = valid_params(cfg["base_kernel_params"], cfg.get("base_kernel"), KPAR)
+    if "metric_params" in cfg:
+        cfg["metric_params"] = valid_params(cfg["metric_params"], cfg.get("metric"), MPAR)
     if "min_samples_split" in cfg and cfg["min_samples_split"] < 2 * cfg["min_samples_leaf"]:
         cfg["min_samples_split"] = 2 * cfg["min_samples_leaf"]
     return cfg
@@ -504,7 +531,12 @@ def stream_table(chk, i, rng):
         chk.fail("table:init-attrs", f"{name}: constructor stores {sorted(HP[name])} but the table has {sorted(set(hps))}", replay)
     # every store (attr, Some src) is `self.attr = src` unmodified: probe with sentinels
     sent = {a: object() for a in sig}
-    e = cls(**sent)
+    try:
+        e = cls(**sent)
+    except Exception as ex:      # noqa
+        chk.fail("table:ctor-computes", f"{name}: the constructor does more than store its arguments (opaque sentinel arguments raise {ex!r})", replay, layer="L3")
+        chk.count(None)
+        return
     for a, src in stores:
         if src is not None and getattr(e, a) is not sent[src]:
             chk.fail("table:stores", f"{name}: attribute {a} does not hold constructor argument {src} unmodified", dict(replay, attr=a))
@@ -576,7 +608,7 @@ def same_exc(a, b):
     return (a is None and b is None) or (a is not None and b is not None and type(a) is type(b) and str(a) == str(b))
 
 
-def final_comparison(chk, name, e, cfg_now, deco, A, replay, rng, tag):
+def final_comparison(chk, name, e, cfg_now, deco, A, replay, rng, tag, pristine=None):
     """fit (and path) on e after its history vs. on a fresh object with the same hyper-parameters.  An exception is an
     outcome like another: it must be the same on both sides (whether the call should raise is not this property's matter)."""
     ref = build(name, cfg_now, deco)
@@ -593,6 +625,18 @@ def final_comparison(chk, name, e, cfg_now, deco, A, replay, rng, tag):
         chk.dist["final-fit-raises:" + type(o1.exc).__name__] += 1
         return True
     ok = compare_states(chk, f"{tag}:fit-differs", f"{name}.fit after the history", state_of(e), state_of(ref), replay)
+    if pristine is not None:
+        # a pristine clone: built from deep copies of the hyper-parameter values taken when they were given, before any call
+        ref3 = build(name, copy.deepcopy(pristine), deco)
+        if deco is not None:
+            ref3._c12_deco = e._c12_deco
+        o3 = invoke(chk, ref3, "fit", A, dict(replay, stage="pristine-fit"))
+        if not same_exc(o1.exc, o3.exc):
+            chk.fail(f"{tag}:fit-differs-from-pristine-clone", f"fit ended with {o1.exc!r} after the history but with {o3.exc!r} on a pristine clone", replay, layer="L3")
+            ok = False
+        else:
+            ok &= compare_states(chk, f"{tag}:fit-differs-from-pristine-clone", f"{name}.fit after the history (vs. an object built from copies of the "
+                                 f"hyper-parameters taken before any call)", state_of(e), state_of(ref3), replay)
     for m in ("predict", "predict_proba", "score"):
         if callable(getattr(e, m, None)):
             r1 = invoke(chk, e, m, A, dict(replay, stage="final-" + m))
@@ -632,6 +676,8 @@ def stream_history(chk, i, rng, decorated=False):
     kinds = ["f8", "f8", "f8", "fortran", "int"] + ([] if name in impl.SPARSE else ["list"])
     A = Data(rng, nA, d, kind=str(rng.choice(kinds)))
     dB = d if name == "Douglas" or rng.random() < 0.5 else d + 1
+    if rnd == 2 and name != "Douglas":
+        dB = d + 1          # fit on data with another number of features, then the final fit: compared with a pristine clone
     B = Data(rng, nB, dB)
     cfg, pl = draw_config(name, rng, d)
     cfg["verbose"] = False
@@ -657,6 +703,8 @@ def stream_history(chk, i, rng, decorated=False):
         plan = [str(rng.choice(opsl)) for _ in range(int(rng.integers(1, maxlen + 1)))]
     replay = {"estimator": name, "config": {k: repr(v) for k, v in cfg.items()}, "plan": plan, "decorated": deco,
               "nA": nA, "nB": nB, "d": d, "dB": dB, "kindA": A.kind}
+    pristine0 = copy.deepcopy(cfg)
+    pristine = copy.deepcopy(cfg)
     e = build(name, cfg, deco)
     if deco is not None:
         e._c12_deco = [deco["ml"], deco["cl"]]
@@ -688,6 +736,7 @@ def stream_history(chk, i, rng, decorated=False):
             new = fix_config(dict(cur, **{k: pl[k]() for k in ks}))
             new["verbose"] = False
             changed = {k: v for k, v in new.items() if v is not cur[k]}
+            pristine.update(copy.deepcopy(changed))
             e.set_params(**changed)
             cur = new
             hops.append("P")
@@ -695,11 +744,16 @@ def stream_history(chk, i, rng, decorated=False):
         elif kind == "restore":
             e.set_params(**cfg)
             cur = dict(cfg)
+            pristine = copy.deepcopy(pristine0)
             hops.append("P")
             seen.append((op, None, None))
         elif kind == "clone":
             before = params_image(e)
-            c = clone(e)
+            try:
+                c = clone(e)
+            except Exception as ex:      # noqa
+                chk.fail("clone:raises", f"sklearn.base.clone({name}) raises {ex!r}: the constructor does not keep its arguments as given", dict(replay, at=op), layer="L3")
+                raise CaseAbort()
             if {k: v[1] for k, v in params_image(c).items()} != {k: v[1] for k, v in before.items()}:
                 chk.fail("clone:params", f"clone of {name} does not carry equal hyper-parameters", dict(replay, at=op), layer="L3")
             if set(vars(c)) - HP[name]:
@@ -708,6 +762,7 @@ def stream_history(chk, i, rng, decorated=False):
                 chk.fail("clone:mutates-params", "clone changed the original's hyper-parameters", dict(replay, at=op), layer="L3")
             e = c
             cur = e.get_params(deep=False)
+            pristine = copy.deepcopy(pristine)      # the clone's values are copies of values that must still be the given ones
             if deco is not None:
                 impl.add_mlcl_constraint(e, deco["ml"], deco["cl"], deco["factor"])
                 e._c12_deco = [deco["ml"], deco["cl"]]
@@ -730,7 +785,7 @@ def stream_history(chk, i, rng, decorated=False):
             if not attrs <= set(may):
                 chk.fail("history:model-may", f"{name} after {op}: attributes {sorted(attrs - set(may))} exist but no call of the model's history can store them", dict(replay, at=op))
     cfg_now = e.get_params(deep=False)
-    ok = final_comparison(chk, name, e, cfg_now, deco, A, replay, rng, "history" if not decorated else "mlcl")
+    ok = final_comparison(chk, name, e, cfg_now, deco, A, replay, rng, "history" if not decorated else "mlcl", pristine=pristine)
     chk.dist[("mlcl:" if decorated else "hist:") + name] += 1
     chk.dist[f"len={min(len(plan), 9)}{'+' if len(plan) > 9 else ''}"] += 1
     nfit = sum(1 for p in plan if p.startswith(("fit", "path")))
@@ -760,7 +815,12 @@ def stream_roundtrip(chk, i, rng):
     pd = e.get_params(deep=True)
     if any(pd[k] is not cfg[k] for k in cfg):
         chk.fail("roundtrip:get_params", f"{name}: get_params(deep=True) does not return the constructor arguments", replay, layer="L3")
-    c = clone(e)
+    try:
+        c = clone(e)
+    except Exception as ex:      # noqa
+        chk.fail("clone:raises", f"sklearn.base.clone({name}) raises {ex!r}: the constructor does not keep its arguments as given", replay, layer="L3")
+        chk.count(None)
+        return
     pc = c.get_params(deep=False)
     for k, v in cfg.items():
         same = (pc[k] is v) if callable(v) and not isinstance(v, _GEMINI) else (canon(pc[k]) == canon(v) and type(pc[k]) is type(v))
@@ -952,10 +1012,10 @@ def args_config(name, rng, d):
     r = rng.random()
     # most cases go through a precomputed affinity: it is the caller's array that travels through the library
     if "kernel" in cfg:
-        cfg["kernel"] = "precomputed" if r < 0.75 else cfg["kernel"]
+        cfg["kernel"] = "precomputed" if r < 0.5 else cfg["kernel"]
     if "metric" in cfg:
-        cfg["metric"] = "precomputed" if r < 0.75 else cfg["metric"]
-    if "gemini" in cfg and r < 0.75:
+        cfg["metric"] = "precomputed" if r < 0.5 else cfg["metric"]
+    if "gemini" in cfg and r < 0.5:
         cfg["gemini"] = [G.MMDGEMINI(kernel="precomputed"), G.WassersteinGEMINI(metric="precomputed"),
                          G.MMDGEMINI(kernel="precomputed", ovo=True), G.WassersteinGEMINI(metric="precomputed", ovo=True)][int(rng.integers(4))]
     if "dynamic" in cfg:
@@ -992,6 +1052,19 @@ def stream_args(chk, i, rng):
     methods = [m for m in ["fit", "fit_predict", "predict", "predict_proba", "score", "path"] if callable(getattr(probe, m, None))]
     pkw = dict(alpha_multiplier=3.0, min_features=int(rng.integers(1, d)), max_patience=1)
     nontrivial = False
+    if callable(getattr(probe, "get_gemini", None)):
+        # get_gemini() and the objective's compute_affinity are public too: the parameter dictionaries stay as given
+        given = copy.deepcopy({k: v for k, v in cfg.items() if isinstance(v, dict) or isinstance(v, _GEMINI)})
+        before = params_image(probe)
+        gob = probe.get_gemini()
+        try:
+            gob.compute_affinity(data.X.copy(), None if aff0 is None else aff0.copy())
+        except Exception:      # noqa
+            pass
+        now = {k: probe.get_params(deep=False)[k] for k in given}
+        if params_image(probe) != before or canon(now) != canon(given):
+            chk.fail("get_gemini:mutates-params", f"{name}.get_gemini().compute_affinity changed a hyper-parameter dictionary: given {given!r}, now {now!r}", replay, layer="L3")
+        chk.dist["args:get_gemini"] += 1
     for m in methods:
         kw = pkw if m == "path" else None
 
@@ -1054,6 +1127,9 @@ def stream_args(chk, i, rng):
 def stream_gemini_args(chk, i, rng):
     """The objectives themselves: gemini(P, A), evaluate, compute_affinity leave P, A, X, y untouched in every representation."""
     gl = impl.all_geminis()
+    for kk in KPAR:
+        gl.append((f"MMDGEMINI({kk}, partial params)", (lambda kk=kk: G.MMDGEMINI(kernel=kk, kernel_params=partial_params(rng, KPAR[kk], 0.0), ovo=bool(rng.integers(2))))))
+    gl.append(("WassersteinGEMINI(euclidean, partial params)", lambda: G.WassersteinGEMINI(metric="euclidean", metric_params=partial_params(rng, MPAR["euclidean"], 0.0))))
     label, fac = gl[i % len(gl)]
     n, K, d = int(rng.integers(5, 10)), int(rng.integers(1, 4)), 3
     data = GridData(rng, n, d)
@@ -1134,7 +1210,7 @@ def stream_gemini_args(chk, i, rng):
 
 STREAMS = {"table": (stream_table, 19, 19), "trace": (aborting(stream_trace), 54, 540), "history": (aborting(stream_history), 180, 2700),
            "mlcl": (aborting(stream_mlcl), 34, 510), "roundtrip": (stream_roundtrip, 54, 540), "malformed": (aborting(stream_malformed), 64, 640),
-           "args": (aborting(stream_args), 54, 540), "gemini_args": (stream_gemini_args, 26, 260)}
+           "args": (aborting(stream_args), 54, 540), "gemini_args": (stream_gemini_args, 42, 420)}
 
 
 def main():
